@@ -1,5 +1,5 @@
 import Proofs.Lemmas.ForkChoiceUnknown
-import Proofs.Lemmas.ForkChoiceInv
+import Proofs.Lemmas.ForkChoiceSim
 import Zrnt.ForkChoice.Spec
 /-!
 # C11 — graph queries agree with the inserted tree
@@ -67,6 +67,25 @@ is never `dead` and the array stays well formed -/
 theorem queries_total_unpruned (ops : List Op)
     (hu : ∀ k, k ≤ ops.length → Unpruned (run .none (ops.take k)).1) : MInv (run .none ops).1 :=
   inv_structure ops .none trivial hu
+
+/-- **`GetSlot` and `InSubtree` refine the specification (admissible histories).** For every history inside the
+domain every `GetSlot(root)` answer is the first (lowest) slot at which the root was inserted, or "unknown", and every
+`InSubtree(anchor, root)` answer is block-tree descent in the inserted tree, or "unknown" when one of the roots was
+never inserted — exactly the answers of the direct walks in `Spec.lean` (together with the other `Refined`
+operations). -/
+theorem getSlot_inSubtree_refine_partial (ops : List Op) (ha : Admissible .none ops) :
+    AnswersAgree ops (run .none ops).2 (Spec.run none ops).2 :=
+  (refines_run ops .none none trivial trivial ha).1
+
+/-- non-vacuity -/
+def histQ : List Op := [
+  .init 4 (rt 1) 0 0 ⟨0, rt 1⟩ ⟨0, rt 1⟩ .absent [32, 32],
+  .block (rt 1) (rt 2) 1 0 0, .block (rt 1) (rt 3) 3 0 0, .block (rt 2) (rt 4) 5 0 0,
+  .inSub (rt 2) (rt 3), .inSub (rt 1) (rt 4), .inSub (rt 2) (rt 4), .inSub (rt 9) (rt 9), .getSlot (rt 4),
+  .getSlot (rt 9)]
+
+example : Admissible .none histQ := admissibleB_sound histQ .none (by decide +kernel)
+example : (run .none histQ).2 = (Spec.run none histQ).2 := by decide +kernel
 
 /- FULL STATEMENT (false of the current code): "before and after pruning" every query answers as the direct walk
    of the inserted tree, `∀ ops, (run .none ops).2 = (Spec.run none ops).2` up to `any`. After a prune interrupted
